@@ -509,6 +509,28 @@ func genFactsText(L *loader) (string, any, []string) {
 				f.defNat("ucSigBits", bitsByCase["uc"][1], `ParseSpendPolicy case "uc": bit size passed to parseInt for the signature count`)
 			}
 		}
+		// parseUnlockKey: does it lift a leading quoted string (the quoted algorithm
+		// specifier, which may contain delimiters) off the input before tokenizing?
+		if pu := lits["parseUnlockKey"]; pu == nil {
+			f.fail("types.ParseSpendPolicy: closure parseUnlockKey not found")
+		} else {
+			var calls []string
+			ast.Inspect(pu.Body, func(x ast.Node) bool {
+				if c, ok := x.(*ast.CallExpr); ok {
+					if n := textCallee(c); n != "?" {
+						calls = append(calls, n)
+					}
+				}
+				return true
+			})
+			sort.Strings(calls)
+			has := false
+			for _, c := range calls {
+				has = has || c == "strconv.QuotedPrefix"
+			}
+			f.defBool("ukQuotedPrefix", has, "ParseSpendPolicy.parseUnlockKey calls strconv.QuotedPrefix (a quoted specifier is taken off the input before the tokenizer cuts at delimiters)")
+			f.defStrList("parseUnlockKeyCalls", calls, "ParseSpendPolicy.parseUnlockKey: every named function it calls (sorted)")
+		}
 		// parseTime: strconv.ParseInt(t, 10, 64)
 		if pt := lits["parseTime"]; pt != nil {
 			found := false
